@@ -82,7 +82,7 @@ func TestC10(t *testing.T) {
 			"VERIF_C10_CURVE=" + j.curve.String(), "VERIF_C10_SCENARIO=" + strconv.Itoa(j.sc), "VERIF_C10_REP=" + strconv.Itoa(j.rep),
 			"GORACE=halt_on_error=0 log_path=" + filepath.Join(raceDir, tag),
 		}
-		res := r.RunChild("TestC10Child", tag, env, 10*time.Minute)
+		res := r.RunChild("TestC10Child", tag, env, 15*time.Minute)
 		r.Eval("child|"+tag, true)
 		if res.OK || (res.Merged && strings.Contains(res.Output, "race detected during execution of test")) {
 			// a child that ran to completion; race reports are collected from the race logs below
